@@ -110,6 +110,7 @@ func verifC19RoundTrip() {
 		dialedECH = append(dialedECH, tc.EncryptedClientHelloConfigList)
 		return nil, errVTransport
 	}
+	vAssert(t.HTTPTransport.Proxy == nil, "no proxy is configured behind the caller's back")
 	// the plaintext dialer installed by NewTransport always refuses
 	_, perr := t.HTTPTransport.DialContext(context.Background(), "tcp", "a.example:80")
 	vAssert(perr != nil, "the plaintext dialer refuses every connection")
